@@ -492,6 +492,21 @@ def _fn_aliases(j, sigs, anchor_names):
             want, got = set(sg["callees"]), callees.get(p, set())
             cands.append((len(want & got) / float(len(want | got) or 1), p))
         b = _unique_best(cands) if len(cands) != 1 else cands[0][1]
+        if not b and len(sg["callees"]) >= 2:
+            # renamed AND moved (a free function turned into an associated function of another type):
+            # the one new function with this signature that calls what the reference one called
+            far = []
+            for p in new:
+                f = fns[p]
+                if p in out or f.get("inputs", []) != sg["inputs"] or f.get("output", "") != sg["output"] or f.get("safety") != sg["safety"] or f.get("exported"):
+                    continue
+                want, got = set(sg["callees"]), callees.get(p, set())
+                sim = len(want & got) / float(len(want | got) or 1)
+                if sim >= 0.75:
+                    far.append((sim, p))
+            far.sort(reverse=True)
+            if len(far) == 1 or (len(far) > 1 and far[0][0] > far[1][0]):
+                b = far[0][1]
         if b:
             out[b] = a
     return out
